@@ -20,6 +20,9 @@ func DeepDump(v interface{}) string {
 	return sb.String()
 }
 
+// skipFields are left out of dumps (set by OracleMemDumpNoNonce).
+var skipFields = map[string]bool{}
+
 var bigIntType = reflect.TypeOf(big.Int{})
 
 func dump(sb *strings.Builder, v reflect.Value, seen map[uintptr]bool, depth int) {
@@ -64,7 +67,7 @@ func dump(sb *strings.Builder, v reflect.Value, seen map[uintptr]bool, depth int
 		sb.WriteString(v.Type().Name() + "{")
 		for i := 0; i < v.NumField(); i++ {
 			name := v.Type().Field(i).Name
-			if strings.HasPrefix(name, "XXX_") {
+			if strings.HasPrefix(name, "XXX_") || skipFields[name] {
 				continue
 			}
 			sb.WriteString(name + ":")
@@ -140,6 +143,14 @@ func OracleMemDump() string {
 	agc, agcCheck, caches, updated := oraclekeeper.VerifGlobals()
 	_ = agcCheck // the CheckTx copy is rebuilt from the deliver state on demand; not consensus relevant
 	return "agc=" + DeepDump(agc) + "\ncaches=" + DeepDump(caches) + "\nupdated=" + DeepDump(updated)
+}
+
+// OracleMemDumpNoNonce is OracleMemDump without the filter's per-validator nonce sets (the
+// in-memory copy of the validators' nonces).
+func OracleMemDumpNoNonce() string {
+	skipFields["validatorNonce"] = true
+	defer delete(skipFields, "validatorNonce")
+	return OracleMemDump()
 }
 
 // OracleMemDigest hashes OracleMemDump.
